@@ -932,14 +932,18 @@ class WeightedTally(StatisticsInterface):
             return
         self._n_nonzero += 1
         # Eq 47 in https://fanf2.user.srcf.net/hermes/doc/antiforgery/stats.pdf
+        prev_sum_of_weights = self._sum_of_weights
         self._sum_of_weights += weight;
         prev_weighted_mean = self._weighted_mean;
         # Eq 53 in https://fanf2.user.srcf.net/hermes/doc/antiforgery/stats.pdf
-        self._weighted_mean += (weight / self._sum_of_weights 
+        mean_increment = (weight / self._sum_of_weights
                 * (value - prev_weighted_mean))
-        # Eq 68 in https://fanf2.user.srcf.net/hermes/doc/antiforgery/stats.pdf
-        self._weight_times_variance += (weight * (value - prev_weighted_mean) 
-                * (value - self._weighted_mean))
+        self._weighted_mean += mean_increment
+        # Eq 68 in https://fanf2.user.srcf.net/hermes/doc/antiforgery/stats.pdf,
+        # written with the increment of the mean (West, 1979): every term
+        # is then non-negative in floating point arithmetic as well
+        self._weight_times_variance += (prev_sum_of_weights
+                * (value - prev_weighted_mean) * mean_increment)
         self._weighted_sum += weight * value;
 
     def n(self) -> int:
